@@ -3,10 +3,12 @@ use serde_json::{Value, json};
 use std::path::Path;
 
 pub mod run;
+pub mod strict;
 
 pub fn dispatch(case: &Value, dir: &Path) -> Value {
     match case.get("op").and_then(|x| x.as_str()) {
         Some("run") => run::op_run(case, dir),
+        Some("strict") => strict::op_strict(case, dir),
         Some(op) => json!({"r": "BADCASE", "msg": format!("unknown op {op}")}),
         None => json!({"r": "BADCASE", "msg": "no op"}),
     }
